@@ -61,15 +61,17 @@ def gen_ids(seed=None, n=None):
 
         got = []
 
+        more = 236  # continuation of the stream from which missing shapes are taken (gen_font.shape_picks)
+
         @hypothesis.seed(subseed(seed, "gen-font"))
-        @hyp_settings(n)
+        @hyp_settings(n + more)
         @given(gen_font.specs())
         def t(spec):
             got.append(spec)
 
         t()
         ids = []
-        for i, spec in enumerate(got[:n] + gen_font.pinned_specs(seed)):
+        for i, spec in enumerate(got[:n] + gen_font.pinned_specs(seed) + gen_font.shape_picks(got[:n], got[n:])):
             fid = "gen:%d:%d" % (seed, i)
             _GEN_SPECS.setdefault(fid, spec)
             ids.append(fid)
